@@ -36,7 +36,7 @@ ROLES = {
     "cv spinlock: cv queue": dict(rel=["cw_6_st", "cw_15_st", "cs_4_st", "wn_5_st", "wn_12_st"], mid=[], acq=["cw_4_cas", "cw_11_cas", "cs_3_cas", "wn_3_cas", "wn_9_cas", "cs_1_ld"]),
     "counter value: zeroing add -> waiter": dict(rel=["ca_3_cas"], mid=["ca_3_cas"], acq=["cr_2_ld", "wr_2_ld", "cv_1_ld", "cw_1_ld", "ce_2_ld", "cd_2_ld"]),
     "once word: run -> return": dict(rel=["ro_9_st"], mid=[], acq=["ro_1_ld", "ro_2_ld", "ro_10_ld"]),
-    "note notified: notify -> observation": dict(rel=["nc_2_st"], mid=[], acq=["nd_1_ld", "nc_1_ld", "nt_2_ld", "nd_3_ld", "ne_2_ld", "nq_3_ld"]),
+    "note notified: notify -> observation": dict(rel=["nc_2_st"], mid=[], acq=["nd_1_ld", "nc_1_ld", "nt_2_ld", "nd_3_ld", "ne_2_ld", "nq_3_ld", "sc_4_ld", "sc_8_ld"]),
     "semaphore count: V -> P": dict(rel=["v_cas"], mid=["v_cas", "p_cas"], acq=["p_cas"]),
 }
 
@@ -107,7 +107,7 @@ def main(tier, replay=None):
     import c10, c07
     l2 = [("Counter", c10.CONFIGS["q"][:3], lambda c: dict(V0=c.get("V0", 0), MaxNow=c.get("MaxNow", 0))),
           ("Once", c07.CONFIGS["q"][:5], lambda c: dict(MaxNow=c.get("MaxNow", 0))),
-          ("Note", [(n, dict(notelib.note_conf(notelib.CONF[n][2]), _c=notelib.CONF[n][2])) for n in ("n_chain", "n_sibling")], lambda conf: notelib.consts_of(conf["_c"]))]
+          ("Note", [(n, dict(notelib.note_conf(notelib.CONF[n][2]), _c=notelib.CONF[n][2])) for n in ("n_chain", "n_sibling", "s_child", "x_hb")], lambda conf: notelib.consts_of(conf["_c"]))]
     for spec, cfgs, cf_ in l2:
         res2 = l2lib.run_family(run, exe2, spec, "C03", cfgs, cf_, set(), {"O-hb"}, env={"VERIF_HB": "1"})
         for name, conf, out in res2:
